@@ -1,6 +1,7 @@
 import PlasVerif.Driver.C01
 import PlasVerif.Driver.C04
 import PlasVerif.Driver.C19
+import PlasVerif.Driver.C18
 /-!
 Line-protocol driver: one request per line `<property> <stream> <payload…>`, one
 answer per line `<model output>\t<spec output or ->[\t<aux>]`.  Imports only `Model`,
@@ -14,6 +15,7 @@ def dispatch (line : String) : String :=
   | "C01" :: r => C01.handle r
   | "C04" :: r => C04.handle r
   | "C19" :: r => C19.handle r
+  | "C18" :: r => C18.handle r
   | _ => "bad-op"
 
 partial def loop (h : IO.FS.Stream) (out : IO.FS.Stream) : IO Unit := do
